@@ -113,6 +113,8 @@ def _has_string_arg(prefix: str):
 AMBIENT_LIBRARY_ENTRIES = [
     ("_griffe/finder.py", "ModuleFinder.__init__", "sys.path", ("griffe", "load"), "an explicit search_paths argument", _kw_given("search_paths")),
     ("mypy/config_parser.py", "_find_config_file", "os.getcwd()", ("mypy", "process_options"), "a --config-file option", _has_string_arg("--config-file")),
+    # mypy always puts the working directory at the front of the module search path; no argument of build() turns that off
+    ("mypy/modulefinder.py", "compute_search_paths", "os.getcwd()", ("mypy", "build"), "an argument that keeps the working directory out of the module search path (mypy offers none)", lambda fi, call: False),
 ]
 
 
@@ -344,8 +346,52 @@ def check(ctx: Ctx, col: Collector, tier: str) -> None:
         key = f"{rel}::{fi.qualname}::{ast.unparse(n)[:50]}"
         if isinstance(par, ast.Call) and getattr(par.func, "id", "") == "sorted":
             col.ok("C08.FS-ENUM", key, repo.loc(rel, n), "enumeration result is sorted before use")
+        elif fi.qualname != "_get_nearest_init_dirs" and (isinstance(par, ast.Assign) or (isinstance(par, ast.Call) and getattr(par.func, "id", "") in ("list", "tuple") and isinstance(repo.parent(par), ast.Assign))):
+            # bound to a local that is sorted in place before it is walked
+            asg = par if isinstance(par, ast.Assign) else repo.parent(par)
+            nm = asg.targets[0].id if len(asg.targets) == 1 and isinstance(asg.targets[0], ast.Name) else None
+            srt = sorted_after(fi.node, nm, asg.lineno) if nm else None
+            first_use = min((x.lineno for x in ast.walk(fi.node) if isinstance(x, ast.Name) and x.id == nm and isinstance(x.ctx, ast.Load) and x.lineno > asg.lineno
+                             and not (isinstance(repo.parent(x), ast.Attribute) and repo.parent(x).attr == "sort")), default=None) if nm else None
+            if srt is not None and (first_use is None or srt <= first_use):
+                col.ok("C08.FS-ENUM", key, repo.loc(rel, n), f"enumeration result is bound to `{nm}` and sorted (line {srt}) before its first use")
+            else:
+                col.bad("C08.FS-ENUM", key, repo.loc(rel, n), f"`{ast.unparse(n)[:60]}` bound to `{nm}`", f"{fi.qualname} uses a file-system enumeration whose order is not fixed")
         elif fi.qualname == "_get_nearest_init_dirs":
-            col.ok("C08.FS-ENUM", key, repo.loc(rel, n), "result only feeds a minimum-depth selection whose outcome (the set of shallowest directories) is order independent; the caller uses it only when it has exactly one element")
+            # accepted form: the complete enumeration feeds a minimum-depth selection (the *set* of shallowest directories does not depend on the
+            # order), and the caller uses the result only when it has exactly one element.  Checked: the enumeration is only ever walked completely.
+            asg = par if isinstance(par, ast.Assign) else repo.parent(par)
+            nm = asg.targets[0].id if isinstance(asg, ast.Assign) and len(asg.targets) == 1 and isinstance(asg.targets[0], ast.Name) else None
+            partial = []
+            for x in ast.walk(fi.node):
+                if isinstance(x, ast.Name) and x.id == nm and isinstance(x.ctx, ast.Load):
+                    px = repo.parent(x)
+                    whole = (isinstance(px, (ast.For, ast.comprehension)) and px.iter is x) or (isinstance(px, ast.Call) and getattr(px.func, "id", "") in ("len", "sorted", "set", "frozenset", "bool")) \
+                        or isinstance(px, (ast.UnaryOp, ast.If, ast.BoolOp, ast.While)) or (isinstance(px, ast.Compare) and all(isinstance(o, (ast.Eq, ast.NotEq, ast.Is, ast.IsNot)) for o in px.ops))
+                    if not whole:
+                        partial.append(f"line {x.lineno}: `{ast.unparse(px)[:50]}`")
+            loops = [x for x in ast.walk(fi.node) if isinstance(x, ast.For) and isinstance(x.iter, ast.Name) and x.iter.id == nm]
+            early = [y.lineno for lp in loops for y in ast.walk(lp) if isinstance(y, (ast.Break, ast.Return))]
+            cfi2 = repo.function(rel, "get_api")
+            uses = [x for x in ast.walk(cfi2.node) if isinstance(x, ast.Call) and getattr(x.func, "id", "") == "_get_nearest_init_dirs"]
+            res_names = {repo.parent(u).targets[0].id for u in uses if isinstance(repo.parent(u), ast.Assign) and isinstance(repo.parent(u).targets[0], ast.Name)}
+            unguarded = []
+            for x in ast.walk(cfi2.node):
+                if isinstance(x, ast.Subscript) and isinstance(x.value, ast.Name) and x.value.id in res_names:
+                    cur, ok_guard = repo.parent(x), False
+                    while cur is not None and cur is not cfi2.node:
+                        if isinstance(cur, ast.If) and ast.unparse(cur.test).replace(" ", "") in (f"len({x.value.id})==1", f"1==len({x.value.id})"):
+                            ok_guard = True
+                        cur = repo.parent(cur)
+                    if not ok_guard:
+                        unguarded.append(x.lineno)
+            if nm and not partial and not early and uses and not unguarded:
+                col.ok("C08.FS-ENUM", key, repo.loc(rel, n), f"`{nm}` is only walked completely (minimum-depth selection: the set of shallowest directories is order independent); "
+                                                             f"the caller indexes the result only under `len(...) == 1`")
+            else:
+                why = (partial or [f"early exit at line {e}" for e in early] or [f"result indexed without the single-element guard at line {u}" for u in unguarded] or ["shape not recognised"])[0]
+                col.bad("C08.FS-ENUM", key, repo.loc(rel, n), why,
+                        f"{fi.qualname}: the result depends on which entry the file system lists first ({why}): with a source directory that is no package itself, the nearest package is chosen by enumeration order")
         else:
             col.bad("C08.FS-ENUM", key, repo.loc(rel, n), f"`{ast.unparse(n)[:60]}`", f"{fi.qualname} uses a file-system enumeration whose order is not fixed")
     if len(enum_sites) < 2:
